@@ -10566,6 +10566,12 @@ func (l *Lowerer) resolveScalarFromName(typ parser.Type) (ir.ScalarType, error) 
 	case "bool":
 		return ir.ScalarType{Kind: ir.ScalarBool, Width: 1}, nil
 	default:
+		// alias A = u32; atomic<A>: the alias is already registered as a named scalar type
+		if handle, exists := l.types[named.Name]; exists && int(handle) < len(l.module.Types) {
+			if scalar, isScalar := l.module.Types[handle].Inner.(ir.ScalarType); isScalar {
+				return scalar, nil
+			}
+		}
 		return ir.ScalarType{}, fmt.Errorf("unknown scalar type for atomic: %s", named.Name)
 	}
 }
